@@ -292,6 +292,650 @@ theorem key_is_named_segment (t : Template) :
     (toRegex t).names = [(String.ofList (templateKey t), 1)] ∧ paramKey ⟨f, some t⟩ = t.key
       ∧ paramKey ⟨f, none⟩ = f := ⟨rfl, rfl, rfl⟩
 
+section AuxRegex
+
+/-- a continuation that fails unless the cursor is at `/` or at the end (on newline-free input) -/
+def Good (k : K) : Prop :=
+  ∀ (pre : List Char) (c : Char) (tl : List Char) (caps : List (Nat × List Char)),
+    c ≠ '/' → '\n' ∉ c :: tl → k ⟨pre, c :: tl, caps⟩ = none
+
+/-- a continuation that succeeds at the end of the input -/
+def EndOk (k : K) : Prop :=
+  ∀ (pre : List Char) (caps : List (Nat × List Char)), (k ⟨pre, [], caps⟩).isSome = true
+
+theorem orElse_none_right {α} (a : Option α) : (a.orElse fun _ => none) = a := by cases a <;> rfl
+
+theorem m_seqR_append (ct : ClassTables) : ∀ (xs ys : List Re) (s : St) (k : K),
+    m ct (seqR (xs ++ ys)) s k = m ct (seqR xs) s (fun s' => m ct (seqR ys) s' k) := by
+  intro xs
+  induction xs with
+  | nil => intro ys s k; simp [seqR, m]
+  | cons x xs ih =>
+    intro ys s k
+    simp only [List.cons_append, m_seqR_cons, ih]
+
+theorem m_alt_eq (ct : ClassTables) (a b : Re) (s : St) (k : K) :
+    m ct (.alt a b) s k = (m ct a s k).orElse (fun _ => m ct b s k) := by simp only [m]
+theorem m_seq_eq (ct : ClassTables) (a b : Re) (s : St) (k : K) :
+    m ct (.seq a b) s k = m ct a s (fun s' => m ct b s' k) := by simp only [m]
+theorem m_star_eq (ct : ClassTables) (r : Re) (g : Bool) (s : St) (k : K) :
+    m ct (.star r g) s k = starLoop (m ct r) g k s.rest.length s := by simp only [m]
+theorem m_eps_eq (ct : ClassTables) (s : St) (k : K) : m ct .eps s k = k s := by simp only [m]
+theorem m_chr_cons (ct : ClassTables) (c d : Char) (pre r : List Char) (caps) (k : K) :
+    m ct (.chr c) ⟨pre, d :: r, caps⟩ k = if c = d then k ⟨d :: pre, r, caps⟩ else none := by simp only [m]
+theorem m_chr_nil (ct : ClassTables) (c : Char) (pre : List Char) (caps) (k : K) :
+    m ct (.chr c) ⟨pre, [], caps⟩ k = none := by simp only [m]
+theorem m_group_eq (ct : ClassTables) (i : Nat) (r : Re) (s : St) (k : K) :
+    m ct (.group i r) s k = m ct r s (fun s' => k { s' with caps := (i, Regex.capture s s') :: s'.caps }) := by
+  simp only [m]
+
+theorem m_notSlash (ct : ClassTables) (pre : List Char) (d : Char) (r : List Char) (caps) (k : K) :
+    m ct notSlash ⟨pre, d :: r, caps⟩ k = if d ≠ '/' then k ⟨d :: pre, r, caps⟩ else none := by
+  by_cases h : d = '/'
+  · subst h; simp [m, notSlash, clsTest, CItem.test]
+  · have h' : ¬ ('/' = d) := fun e => h e.symm
+    simp [m, notSlash, clsTest, CItem.test, h, h']
+
+theorem m_notSlash_nil (ct : ClassTables) (pre : List Char) (caps) (k : K) :
+    m ct notSlash ⟨pre, [], caps⟩ k = none := by
+  simp [m, notSlash]
+
+theorem spanSeg_cons_ne (d : Char) (r : List Char) (h : d ≠ '/') :
+    spanSeg (d :: r) = (d :: (spanSeg r).1, (spanSeg r).2) := by
+  simp [spanSeg, h]
+
+theorem spanSeg_cons_slash (r : List Char) : spanSeg ('/' :: r) = ([], '/' :: r) := by
+  simp [spanSeg]
+
+/-- greedy `[^/]*` followed by a Good continuation takes the whole run of non-slash characters -/
+theorem star_notSlash (ct : ClassTables) (k : K) (hk : Good k) (caps) :
+    ∀ (r : List Char) (n : Nat) (p : List Char), r.length ≤ n → '\n' ∉ r →
+      starLoop (m ct notSlash) true k n ⟨p, r, caps⟩ = k ⟨(spanSeg r).1.reverse ++ p, (spanSeg r).2, caps⟩ := by
+  intro r
+  induction r with
+  | nil =>
+    intro n p _ _
+    cases n with
+    | zero => simp [starLoop, spanSeg]
+    | succ n => simp [starLoop, spanSeg, m_notSlash_nil]
+  | cons e r ih =>
+    intro n p hn hnl
+    cases n with
+    | zero => simp at hn
+    | succ n =>
+      have hr : '\n' ∉ r := by intro h; apply hnl; simp [h]
+      by_cases he : e = '/'
+      · subst he
+        simp [starLoop, m_notSlash, spanSeg_cons_slash]
+      · simp only [starLoop, if_true, m_notSlash, ne_eq, he, not_false_eq_true]
+        have hlt : r.length < (e :: r).length := by simp
+        simp only [hlt, if_true]
+        rw [ih n (e :: p) (by simpa using hn) hr, spanSeg_cons_ne e r he]
+        rw [hk p e r caps he hnl]
+        simp
+
+theorem m_plus (ct : ClassTables) (k : K) (hk : Good k) (pre rest : List Char) (caps) (hnl : '\n' ∉ rest) :
+    m ct plusItem ⟨pre, rest, caps⟩ k =
+      if (spanSeg rest).1 = [] then none
+      else k ⟨(spanSeg rest).1.reverse ++ pre, (spanSeg rest).2, caps⟩ := by
+  cases rest with
+  | nil => simp [plusItem, m, m_notSlash_nil, spanSeg]
+  | cons d r =>
+    have hr : '\n' ∉ r := by intro h; apply hnl; simp [h]
+    by_cases hd : d = '/'
+    · subst hd; simp [plusItem, m, m_notSlash, spanSeg_cons_slash]
+    · simp only [plusItem, m, m_notSlash, ne_eq, hd, not_false_eq_true, if_true]
+      rw [star_notSlash ct k hk caps r r.length (d :: pre) (Nat.le_refl _) hr, spanSeg_cons_ne d r hd]
+      simp
+
+/-- greedy `.*` followed by a continuation that succeeds at the end takes everything -/
+theorem star_any_greedy (ct : ClassTables) (k : K) (hk : EndOk k) (caps) :
+    ∀ (r : List Char) (n : Nat) (p : List Char), r.length ≤ n → '\n' ∉ r →
+      starLoop (m ct .any) true k n ⟨p, r, caps⟩ = k ⟨r.reverse ++ p, [], caps⟩ := by
+  intro r
+  induction r with
+  | nil =>
+    intro n p _ _
+    cases n with
+    | zero => simp [starLoop]
+    | succ n => simp [starLoop, m]
+  | cons e r ih =>
+    intro n p hn hnl
+    cases n with
+    | zero => simp at hn
+    | succ n =>
+      have hr : '\n' ∉ r := by intro h; apply hnl; simp [h]
+      have he : e ≠ '\n' := by intro h; apply hnl; simp [h]
+      simp only [starLoop, if_true, m_any_cons, ne_eq, he, not_false_eq_true]
+      have hlt : r.length < (e :: r).length := by simp
+      simp only [hlt, if_true]
+      rw [ih n (e :: p) (by simpa using hn) hr]
+      have := hk (r.reverse ++ e :: p) caps
+      cases hx : k ⟨r.reverse ++ e :: p, [], caps⟩ with
+      | none => rw [hx] at this; simp at this
+      | some x => simp [Option.orElse, hx]
+
+theorem m_dstar (ct : ClassTables) (k : K) (hk : EndOk k) (pre rest : List Char) (caps) (hnl : '\n' ∉ rest) :
+    m ct dstarItem ⟨pre, rest, caps⟩ k = k ⟨rest.reverse ++ pre, [], caps⟩ := by
+  rw [dstarItem, m_star_eq]
+  exact star_any_greedy ct k hk caps rest rest.length pre (Nat.le_refl _) hnl
+
+theorem m_optRest (ct : ClassTables) (k : K) (hk : EndOk k) (pre rest : List Char) (caps) (hnl : '\n' ∉ rest) :
+    m ct optRest ⟨pre, rest, caps⟩ k =
+      match rest with
+      | [] => k ⟨pre, [], caps⟩
+      | c :: r => if c = '/' then k ⟨(c :: r).reverse ++ pre, [], caps⟩ else k ⟨pre, c :: r, caps⟩ := by
+  cases rest with
+  | nil => simp [optRest, m_alt_eq, m_seq_eq, m_chr_nil, m_eps_eq]
+  | cons c r =>
+    have hr : '\n' ∉ r := by intro h; apply hnl; simp [h]
+    by_cases hc : c = '/'
+    · subst hc
+      rw [optRest, m_alt_eq, m_seq_eq, m_chr_cons, m_eps_eq]
+      simp only [if_true, m_star_eq]
+      rw [star_any_greedy ct k hk caps r r.length ('/' :: pre) (Nat.le_refl _) hr]
+      have := hk (r.reverse ++ '/' :: pre) caps
+      cases hx : k ⟨r.reverse ++ '/' :: pre, [], caps⟩ with
+      | none => rw [hx] at this; simp at this
+      | some x => simp [Option.orElse, hx]
+    · have hc' : ¬ ('/' = c) := fun e => hc e.symm
+      rw [optRest, m_alt_eq, m_seq_eq, m_chr_cons, m_eps_eq]
+      simp [hc, hc']
+
+theorem spanSeg_mem2 (c : Char) : ∀ (r : List Char), c ∈ (spanSeg r).2 → c ∈ r := by
+  intro r
+  induction r with
+  | nil => simp [spanSeg]
+  | cons d r ih =>
+    by_cases hd : d = '/'
+    · subst hd; simp [spanSeg]
+    · simp only [spanSeg, hd, if_false]
+      intro h; exact List.mem_cons_of_mem _ (ih h)
+
+theorem good_chr_slash (ct : ClassTables) (I : List Re) (k : K) :
+    Good (fun s => m ct (seqR (.chr '/' :: I)) s k) := by
+  intro pre c tl caps hc _
+  have hc' : ¬ ('/' = c) := fun e => hc e.symm
+  simp [m_seqR_cons, m_chr_cons, hc']
+
+theorem m_eol_eq (ct : ClassTables) (s : St) (k : K) :
+    m ct .eol s k = if s.rest = [] ∨ s.rest = ['\n'] then k s else none := by simp only [m]
+
+theorem good_eol (ct : ClassTables) : Good (fun s => m ct (seqR [.eol]) s some) := by
+  intro pre c tl caps _ hnl
+  have h1 : ¬ (c = '\n' ∧ tl = []) := by
+    intro h; apply hnl; simp [h.1]
+  simp [seqR, m_eol_eq, h1]
+
+theorem good_tail (ct : ClassTables) (fin : List Re) (k : K)
+    (hgood : Good (fun s => m ct (seqR fin) s k)) :
+    ∀ (ts : List Tok), dstarOnlyLast ts = true →
+      Good (fun s => m ct (seqR (mergeToksTail ts ++ fin)) s k) := by
+  intro ts hts
+  cases ts with
+  | nil => simpa [mergeToksTail] using hgood
+  | cons t ts =>
+    cases t with
+    | lit cs => simpa [mergeToksTail] using good_chr_slash ct _ k
+    | star => simpa [mergeToksTail] using good_chr_slash ct _ k
+    | dstar =>
+      cases ts with
+      | cons t' ts' => simp [dstarOnlyLast] at hts
+      | nil =>
+        intro pre c tl caps hc hnl
+        have hc' : ¬ ('/' = c) := fun e => hc e.symm
+        have := hgood pre c tl caps hc hnl
+        simp only [mergeToksTail, List.cons_append, List.nil_append, m_seqR_cons]
+        rw [optRest, m_alt_eq, m_seq_eq, m_chr_cons, m_eps_eq]
+        simp [hc', this]
+
+theorem run_tail (ct : ClassTables) (fin : List Re) (k : K)
+    (hgood : Good (fun s => m ct (seqR fin) s k)) :
+    ∀ (ts : List Tok), dstarOnlyLast ts = true →
+      (noDstar ts = false → EndOk (fun s => m ct (seqR fin) s k)) →
+      ∀ (pre rest : List Char) (caps : List (Nat × List Char)), '\n' ∉ rest →
+        m ct (seqR (mergeToksTail ts ++ fin)) ⟨pre, rest, caps⟩ k =
+          match scanTail ts rest with
+          | none => none
+          | some (c, r') => m ct (seqR fin) ⟨c.reverse ++ pre, r', caps⟩ k := by
+  intro ts
+  induction ts with
+  | nil => intro _ _ pre rest caps _; simp [mergeToksTail, scanTail]
+  | cons t ts ih =>
+    intro hts hend pre rest caps hnl
+    cases t with
+    | dstar =>
+      cases ts with
+      | cons t' ts' => simp [dstarOnlyLast] at hts
+      | nil =>
+        have hE := hend (by simp [noDstar])
+        simp only [mergeToksTail, List.cons_append, List.nil_append, m_seqR_cons]
+        rw [m_optRest ct _ hE pre rest caps hnl]
+        cases rest with
+        | nil => simp [scanTail]
+        | cons c r =>
+          by_cases hc : c = '/'
+          · subst hc; simp [scanTail, andThen]
+          · simp [scanTail, hc]
+    | lit cs =>
+      have hts' : dstarOnlyLast ts = true := by simpa [dstarOnlyLast] using hts
+      have hend' : noDstar ts = false → EndOk (fun s => m ct (seqR fin) s k) := by
+        intro h; apply hend; simpa [noDstar] using h
+      simp only [mergeToksTail, List.cons_append, List.append_assoc, m_seqR_cons]
+      cases rest with
+      | nil => simp [m_chr_nil, scanTail, scanSlash, andThen]
+      | cons d r =>
+        have hr : '\n' ∉ r := by intro h; apply hnl; simp [h]
+        by_cases hd : d = '/'
+        · subst hd
+          simp only [m_chr_cons, if_true]
+          rw [m_seqR_chrs]
+          by_cases hp : cs <+: r
+          · have hdrop : '\n' ∉ r.drop cs.length := fun h => hr (List.mem_of_mem_drop h)
+            simp only [hp, if_true, adv]
+            rw [ih hts' hend' _ _ caps hdrop]
+            simp only [scanTail, scanSlash, if_true, andThen, scanTok, hp]
+            cases scanTail ts (List.drop cs.length r) with
+            | none => rfl
+            | some cr => obtain ⟨c', r''⟩ := cr; simp
+          · simp [hp, scanTail, scanSlash, andThen, scanTok]
+        · have hd' : ¬ ('/' = d) := fun e => hd e.symm
+          simp [m_chr_cons, hd', scanTail, scanSlash, hd, andThen]
+    | star =>
+      have hts' : dstarOnlyLast ts = true := by simpa [dstarOnlyLast] using hts
+      have hend' : noDstar ts = false → EndOk (fun s => m ct (seqR fin) s k) := by
+        intro h; apply hend; simpa [noDstar] using h
+      simp only [mergeToksTail, List.cons_append, m_seqR_cons]
+      cases rest with
+      | nil => simp [m_chr_nil, scanTail, scanSlash, andThen]
+      | cons d r =>
+        have hr : '\n' ∉ r := by intro h; apply hnl; simp [h]
+        by_cases hd : d = '/'
+        · subst hd
+          simp only [m_chr_cons, if_true]
+          rw [m_plus ct _ (good_tail ct fin k hgood ts hts') _ _ caps hr]
+          by_cases hx : (spanSeg r).1 = []
+          · simp [hx, scanTail, scanSlash, andThen, scanTok]
+          · have h2 : '\n' ∉ (spanSeg r).2 := fun h => hr (spanSeg_mem2 _ r h)
+            simp only [hx, if_false]
+            rw [ih hts' hend' _ _ caps h2]
+            simp only [scanTail, scanSlash, if_true, andThen, scanTok, hx, if_false]
+            cases scanTail ts (spanSeg r).2 with
+            | none => rfl
+            | some cr => obtain ⟨c', r''⟩ := cr; simp
+        · have hd' : ¬ ('/' = d) := fun e => hd e.symm
+          simp [m_chr_cons, hd', scanTail, scanSlash, hd, andThen]
+
+theorem run_toks (ct : ClassTables) (fin : List Re) (k : K)
+    (hgood : Good (fun s => m ct (seqR fin) s k)) :
+    ∀ (ts : List Tok), dstarOnlyLast ts = true →
+      (noDstar ts = false → EndOk (fun s => m ct (seqR fin) s k)) →
+      ∀ (pre rest : List Char) (caps : List (Nat × List Char)), '\n' ∉ rest →
+        m ct (seqR (mergeToks ts ++ fin)) ⟨pre, rest, caps⟩ k =
+          match scanToks ts rest with
+          | none => none
+          | some (c, r') => m ct (seqR fin) ⟨c.reverse ++ pre, r', caps⟩ k := by
+  intro ts hts hend pre rest caps hnl
+  cases ts with
+  | nil => simp [mergeToks, scanToks]
+  | cons t ts =>
+    cases t with
+    | dstar =>
+      cases ts with
+      | cons t' ts' => simp [dstarOnlyLast] at hts
+      | nil =>
+        have hE := hend (by simp [noDstar])
+        simp only [mergeToks, tokItems, mergeToksTail, List.append_nil, List.cons_append, List.nil_append, m_seqR_cons]
+        rw [m_dstar ct _ hE pre rest caps hnl]
+        simp [scanToks, scanTok, scanTail, andThen]
+    | lit cs =>
+      have hts' : dstarOnlyLast ts = true := by simpa [dstarOnlyLast] using hts
+      have hend' : noDstar ts = false → EndOk (fun s => m ct (seqR fin) s k) := by
+        intro h; apply hend; simpa [noDstar] using h
+      simp only [mergeToks, tokItems, List.append_assoc]
+      rw [m_seqR_chrs]
+      by_cases hp : cs <+: rest
+      · have hdrop : '\n' ∉ rest.drop cs.length := fun h => hnl (List.mem_of_mem_drop h)
+        simp only [hp, if_true, adv]
+        rw [run_tail ct fin k hgood ts hts' hend' _ _ caps hdrop]
+        simp only [scanToks, andThen, scanTok, hp, if_true]
+        cases scanTail ts (List.drop cs.length rest) with
+        | none => rfl
+        | some cr => obtain ⟨c', r''⟩ := cr; simp
+      · simp [hp, scanToks, andThen, scanTok]
+    | star =>
+      have hts' : dstarOnlyLast ts = true := by simpa [dstarOnlyLast] using hts
+      have hend' : noDstar ts = false → EndOk (fun s => m ct (seqR fin) s k) := by
+        intro h; apply hend; simpa [noDstar] using h
+      simp only [mergeToks, tokItems, List.cons_append, List.nil_append, m_seqR_cons]
+      rw [m_plus ct _ (good_tail ct fin k hgood ts hts') _ _ caps hnl]
+      by_cases hx : (spanSeg rest).1 = []
+      · simp [hx, scanToks, andThen, scanTok]
+      · have h2 : '\n' ∉ (spanSeg rest).2 := fun h => hnl (spanSeg_mem2 _ rest h)
+        simp only [hx, if_false]
+        rw [run_tail ct fin k hgood ts hts' hend' _ _ caps h2]
+        simp only [scanToks, andThen, scanTok, hx, if_false]
+        cases scanTail ts (spanSeg rest).2 with
+        | none => rfl
+        | some cr => obtain ⟨c', r''⟩ := cr; simp
+
+/-- scanners split their input: consumed ++ rest = input (so newline-freeness is inherited) -/
+theorem andThen_split (a : Option (List Char × List Char)) (f : List Char → Option (List Char × List Char))
+    (v : List Char) (ha : ∀ c r, a = some (c, r) → c ++ r = v)
+    (hf : ∀ w c r, f w = some (c, r) → c ++ r = w) :
+    ∀ c r, andThen a f = some (c, r) → c ++ r = v := by
+  intro c r h
+  unfold andThen at h
+  cases a with
+  | none => simp at h
+  | some cr =>
+    obtain ⟨c1, r1⟩ := cr
+    simp only at h
+    cases hfr : f r1 with
+    | none => simp [hfr] at h
+    | some cr2 =>
+      obtain ⟨c2, r2⟩ := cr2
+      simp only [hfr, Option.some.injEq, Prod.mk.injEq] at h
+      obtain ⟨h1, h2⟩ := h
+      subst h1 h2
+      have := ha c1 r1 rfl
+      have := hf r1 c2 r2 hfr
+      simp [List.append_assoc, *]
+
+theorem spanSeg_split : ∀ (v : List Char), (spanSeg v).1 ++ (spanSeg v).2 = v := by
+  intro v
+  induction v with
+  | nil => simp [spanSeg]
+  | cons d r ih =>
+    by_cases hd : d = '/'
+    · subst hd; simp [spanSeg]
+    · simp [spanSeg, hd, ih]
+
+theorem scanTok_split (t : Tok) (v c r : List Char) (h : scanTok t v = some (c, r)) : c ++ r = v := by
+  cases t with
+  | lit cs =>
+    simp only [scanTok] at h
+    split at h
+    · rename_i hp
+      simp only [Option.some.injEq, Prod.mk.injEq] at h
+      obtain ⟨h1, h2⟩ := h
+      subst h1 h2
+      obtain ⟨w, hw⟩ := hp
+      subst hw; simp
+    · simp at h
+  | star =>
+    simp only [scanTok] at h
+    split at h
+    · simp at h
+    · simp only [Option.some.injEq] at h
+      have := spanSeg_split v
+      rw [h] at this
+      exact this
+  | dstar =>
+    simp only [scanTok, Option.some.injEq, Prod.mk.injEq] at h
+    obtain ⟨h1, h2⟩ := h
+    subst h1 h2; simp
+
+theorem scanSlash_split (v c r : List Char) (h : scanSlash v = some (c, r)) : c ++ r = v := by
+  cases v with
+  | nil => simp [scanSlash] at h
+  | cons d tl =>
+    simp only [scanSlash] at h
+    split at h
+    · rename_i hd
+      simp only [Option.some.injEq, Prod.mk.injEq] at h
+      obtain ⟨h1, h2⟩ := h
+      subst h1 h2 hd; simp
+    · simp at h
+
+theorem scanTail_split : ∀ (ts : List Tok) (v c r : List Char), scanTail ts v = some (c, r) → c ++ r = v := by
+  intro ts
+  induction ts with
+  | nil => intro v c r h; simp [scanTail] at h; obtain ⟨h1, h2⟩ := h; subst h1 h2; simp
+  | cons t ts ih =>
+    intro v c r h
+    cases t with
+    | dstar =>
+      cases v with
+      | nil => simp only [scanTail] at h; exact ih [] c r h
+      | cons d tl =>
+        simp only [scanTail] at h
+        split at h
+        · exact andThen_split _ _ (d :: tl) (by intro c r h; simp at h; obtain ⟨h1, h2⟩ := h; subst h1 h2; simp)
+            (fun w c r hw => ih w c r hw) c r h
+        · exact ih _ c r h
+    | lit cs =>
+      simp only [scanTail] at h
+      exact andThen_split _ _ v
+        (andThen_split _ _ v (fun c r h => scanSlash_split v c r h) (fun w c r h => scanTok_split _ w c r h))
+        (fun w c r hw => ih w c r hw) c r h
+    | star =>
+      simp only [scanTail] at h
+      exact andThen_split _ _ v
+        (andThen_split _ _ v (fun c r h => scanSlash_split v c r h) (fun w c r h => scanTok_split _ w c r h))
+        (fun w c r hw => ih w c r hw) c r h
+
+theorem scanToks_split (ts : List Tok) (v c r : List Char) (h : scanToks ts v = some (c, r)) : c ++ r = v := by
+  cases ts with
+  | nil => simp [scanToks] at h; obtain ⟨h1, h2⟩ := h; subst h1 h2; simp
+  | cons t ts =>
+    simp only [scanToks] at h
+    exact andThen_split _ _ v (fun c r h => scanTok_split t v c r h) (fun w c r hw => scanTail_split ts w c r hw) c r h
+
+theorem capture_app (p c r r' : List Char) (cs cs' : List (Nat × List Char)) :
+    Regex.capture ⟨p, r, cs⟩ ⟨c.reverse ++ p, r', cs'⟩ = c := by
+  simp only [Regex.capture]
+  have e1 : (c.reverse ++ p).length - p.length = c.reverse.length := by simp
+  rw [e1, List.take_left']
+  · simp
+  · rfl
+
+theorem m_bol_eq (ct : ClassTables) (s : St) (k : K) : m ct .bol s k = if s.pre = [] then k s else none := by
+  simp only [m]
+
+theorem good_of_caps (k : K) (f : St → List (Nat × List Char)) (hk : Good k) :
+    Good (fun s' => k { s' with caps := f s' }) := by
+  intro pre c tl caps hc hnl
+  exact hk pre c tl _ hc hnl
+
+/-- from the named group to the end of the pattern -/
+theorem run_named (ct : ClassTables) (sub post : List Tok)
+    (hsub : dstarOnlyLast sub = true) (hpost : dstarOnlyLast post = true)
+    (hor : noDstar sub = true ∨ post = [])
+    (pre0 rest : List Char) (hnl : '\n' ∉ rest) :
+    m ct (seqR (namedItem sub :: (mergeToksTail post ++ [.eol]))) ⟨pre0, rest, []⟩ some =
+      match scanToks sub rest with
+      | none => none
+      | some (c2, v2) =>
+        match scanTail post v2 with
+        | some (c3, []) => some ⟨c3.reverse ++ (c2.reverse ++ pre0), [], [(1, c2)]⟩
+        | _ => none := by
+  have hgC : Good (fun s => m ct (seqR (mergeToksTail post ++ [.eol])) s some) :=
+    good_tail ct [.eol] some (good_eol ct) post hpost
+  have hC : ∀ (p r : List Char) (caps : List (Nat × List Char)), '\n' ∉ r →
+      m ct (seqR (mergeToksTail post ++ [.eol])) ⟨p, r, caps⟩ some =
+        match scanTail post r with
+        | some (c3, []) => some ⟨c3.reverse ++ p, [], caps⟩
+        | _ => none := by
+    intro p r caps hr
+    rw [run_tail ct [.eol] some (good_eol ct) post hpost
+      (fun _ => by intro p caps; simp [seqR, m_eol_eq]) p r caps hr]
+    cases hs : scanTail post r with
+    | none => rfl
+    | some cr =>
+      obtain ⟨c3, r'⟩ := cr
+      have hsplit := scanTail_split post r c3 r' hs
+      cases r' with
+      | nil => simp [seqR, m_eol_eq]
+      | cons e tl =>
+        have : ¬ (e = '\n' ∧ tl = []) := by
+          intro h; apply hr; rw [← hsplit]; simp [h.1]
+        simp [seqR, m_eol_eq, this]
+  rw [m_seqR_cons, namedItem, m_group_eq]
+  have happ : seqR (mergeToks sub) = seqR (mergeToks sub ++ []) := by simp
+  rw [happ]
+  rw [run_toks ct [] _ ?_ sub hsub ?_ pre0 rest [] hnl]
+  · cases hs : scanToks sub rest with
+    | none => rfl
+    | some cr =>
+      obtain ⟨c2, v2⟩ := cr
+      have hsplit := scanToks_split sub rest c2 v2 hs
+      have hv2 : '\n' ∉ v2 := by intro h; apply hnl; rw [← hsplit]; simp [h]
+      simp only [seqR, m_eps_eq, capture_app]
+      rw [hC _ _ _ hv2]
+  · simp only [seqR, m_eps_eq]
+    exact good_of_caps _ _ hgC
+  · intro hnd
+    have hp : post = [] := by
+      rcases hor with h | h
+      · rw [h] at hnd; cases hnd
+      · exact h
+    subst hp
+    intro p caps
+    simp [seqR, m_eps_eq, mergeToksTail, m_eol_eq]
+
+theorem wf_split (t : Template) (h : t.wf = true) :
+    noDstar t.pre = true ∧ dstarOnlyLast t.sub = true ∧ dstarOnlyLast t.post = true ∧
+      (noDstar t.sub = true ∨ t.post = []) := by
+  simp only [Template.wf, Bool.and_eq_true, Bool.or_eq_true, List.isEmpty_iff] at h
+  obtain ⟨⟨⟨h1, h2⟩, h3⟩, h4⟩ := h
+  exact ⟨h1, h2, h3, h4⟩
+
+theorem noDstar_dstarOnlyLast : ∀ (ts : List Tok), noDstar ts = true → dstarOnlyLast ts = true := by
+  intro ts
+  induction ts with
+  | nil => intro _; rfl
+  | cons t ts ih =>
+    intro h
+    cases t with
+    | dstar => simp [noDstar] at h
+    | lit cs => simp only [noDstar] at h; simpa [dstarOnlyLast] using ih h
+    | star => simp only [noDstar] at h; simpa [dstarOnlyLast] using ih h
+
+end AuxRegex
+
+/-! ## The regex of `RoutingParameter.to_regex` and the template language -/
+
+/-- **The regex built by `RoutingParameter` recognises exactly the template language and captures
+the named segment** (sound and complete): for every template of the routing.proto grammar (one
+named segment, `**` only as the last segment: `Template.wf`) and every newline-free value, what
+`routing_param_regex.match(v).group(key)` returns in the engine model is what the regex-free
+segment scanner `scanCapture` returns (literal = the segment itself, `*` = one non-empty segment,
+trailing `**` = zero or more segments).  No bound on template or value size. -/
+theorem capture_eq_scan (ct : ClassTables) (t : Template) (hwf : t.wf = true)
+    (v : List Char) (hnl : '\n' ∉ v) :
+    Model.Routing.capture ct t v = scanCapture t v := by
+  obtain ⟨hpre, hsub, hpost, hor⟩ := wf_split t hwf
+  simp only [Model.Routing.capture, pyMatch, matchAt, toRegex]
+  rw [show (Re.bol :: templateItems t ++ [Re.eol]) = Re.bol :: (templateItems t ++ [Re.eol]) from rfl]
+  rw [m_seqR_cons, m_bol_eq]
+  simp only [if_true]
+  unfold scanCapture templateItems
+  cases hp : t.pre with
+  | nil =>
+    simp only [scanPre, List.cons_append]
+    rw [run_named ct t.sub t.post hsub hpost hor [] v hnl]
+    cases scanToks t.sub v with
+    | none => rfl
+    | some cr =>
+      obtain ⟨c2, v2⟩ := cr
+      simp only
+      cases scanTail t.post v2 with
+      | none => rfl
+      | some cr => obtain ⟨c3, r'⟩ := cr; cases r' <;> simp [St.group?]
+  | cons p ps =>
+    rw [hp] at hpre
+    have e : (tokItems p ++ mergeToksTail ps ++ (Re.chr '/' :: namedItem t.sub :: mergeToksTail t.post)) ++ [Re.eol]
+        = mergeToks (p :: ps) ++ (Re.chr '/' :: namedItem t.sub :: (mergeToksTail t.post ++ [Re.eol])) := by
+      simp [mergeToks, List.append_assoc]
+    rw [e]
+    rw [run_toks ct _ some (good_chr_slash ct _ some) (p :: ps) (noDstar_dstarOnlyLast _ hpre)
+      (by intro h; rw [hpre] at h; cases h) [] v [] hnl]
+    simp only [scanPre]
+    cases hs : scanToks (p :: ps) v with
+    | none => simp [andThen]
+    | some cr =>
+      obtain ⟨c1, v1⟩ := cr
+      have hsplit := scanToks_split (p :: ps) v c1 v1 hs
+      have hv1 : '\n' ∉ v1 := by intro h; apply hnl; rw [← hsplit]; simp [h]
+      simp only [andThen]
+      rw [m_seqR_cons]
+      cases v1 with
+      | nil => simp [m_chr_nil, scanSlash]
+      | cons d r =>
+        have hr : '\n' ∉ r := by intro h; apply hv1; simp [h]
+        by_cases hd : d = '/'
+        · subst hd
+          simp only [m_chr_cons, if_true, scanSlash]
+          rw [run_named ct t.sub t.post hsub hpost hor _ r hr]
+          cases scanToks t.sub r with
+          | none => rfl
+          | some cr =>
+            obtain ⟨c2, v2⟩ := cr
+            simp only
+            cases scanTail t.post v2 with
+            | none => rfl
+            | some cr => obtain ⟨c3, r'⟩ := cr; cases r' <;> simp [St.group?]
+        · have hd' : ¬ ('/' = d) := fun e => hd e.symm
+          simp [m_chr_cons, hd', scanSlash, hd]
+
+section AuxScan
+
+theorem spanSeg_no_slash : ∀ (v : List Char), '/' ∉ v → spanSeg v = (v, []) := by
+  intro v
+  induction v with
+  | nil => intro _; rfl
+  | cons d r ih =>
+    intro h
+    have hd : d ≠ '/' := by intro e; apply h; simp [e]
+    have hr : '/' ∉ r := by intro e; apply h; simp [e]
+    simp [spanSeg, hd, ih hr]
+
+theorem spanSeg_slash : ∀ (v : List Char), '/' ∈ v → (spanSeg v).2 ≠ [] := by
+  intro v
+  induction v with
+  | nil => intro h; simp at h
+  | cons d r ih =>
+    intro h
+    by_cases hd : d = '/'
+    · subst hd; simp [spanSeg]
+    · have hr : '/' ∈ r := by
+        rcases List.mem_cons.mp h with e | e
+        · exact absurd e.symm hd
+        · exact e
+      simpa [spanSeg, hd] using ih hr
+
+end AuxScan
+
+/-- `{key=**}` captures the whole (newline-free) value … -/
+theorem dstar_template_captures_all (ct : ClassTables) (k v : List Char) (hnl : '\n' ∉ v) :
+    Model.Routing.capture ct ⟨[], k, [.dstar], []⟩ v = some v := by
+  rw [capture_eq_scan ct _ (by rfl) v hnl]
+  simp [scanCapture, scanPre, scanToks, scanTok, scanTail, andThen]
+
+/-- … so a parameter without `path_template` is the shorthand for `{field=**}` (routing.proto). -/
+theorem no_template_is_dstar_shorthand (ct : ClassTables) (r : Request) (f : List Char) (hnl : '\n' ∉ r f) :
+    contrib ct r ⟨f, none⟩ = contrib ct r ⟨f, some ⟨[], f, [.dstar], []⟩⟩ := by
+  simp only [contrib, dstar_template_captures_all ct f (r f) hnl]
+
+/-- `{key=*}` captures the value iff it is one non-empty segment. -/
+theorem star_template_exact (ct : ClassTables) (k v : List Char) (hnl : '\n' ∉ v) :
+    Model.Routing.capture ct ⟨[], k, [.star], []⟩ v = if v ≠ [] ∧ '/' ∉ v then some v else none := by
+  rw [capture_eq_scan ct _ (by rfl) v hnl]
+  by_cases hs : '/' ∈ v
+  · have h2 := spanSeg_slash v hs
+    simp only [scanCapture, scanPre, scanToks, scanTok, scanTail, andThen]
+    by_cases hx : (spanSeg v).1 = []
+    · simp [hx, hs]
+    · simp only [hx, if_false, List.append_nil]
+      cases hy : (spanSeg v).2 with
+      | nil => exact absurd hy h2
+      | cons e tl => simp [hs]
+  · have h1 := spanSeg_no_slash v hs
+    by_cases hv : v = []
+    · subst hv; simp [scanCapture, scanPre, scanToks, scanTok, andThen, spanSeg]
+    · simp [scanCapture, scanPre, scanToks, scanTok, scanTail, andThen, h1, hv, hs]
+
 /-! ## Implicit routing (no google.api.routing; variables of the primary http path) -/
 
 /-- well-formed tokenised http path: literal text has no `{`; variable names contain none of
@@ -468,5 +1112,127 @@ theorem implicit_header_iff (ct : ClassTables) (path : List Char) (r : Request) 
 /-- the google.api.routing annotation, when present, replaces implicit routing altogether. -/
 theorem explicit_replaces_implicit (ct : ClassTables) (ps : List Param) (verbs : List (List Char)) (r : Request) :
     header ct ⟨some ps, verbs⟩ r = explicitHeader ct ps r := rfl
+
+/-! ## Encoding (`routing_header.to_routing_header` = `urlencode(…, safe="/")`, external, T2) -/
+
+/-- characters that may occur in an encoded key or value: unreserved, `/`, `%`, `+` -/
+def isSafeOut (c : Char) : Bool := isUnreserved c || c = '/' || c = '%' || c = '+'
+
+theorem hexDigit_safe : ∀ n : Fin 16, isUnreserved (hexDigit n.val) = true := by decide
+
+theorem pctByte_safe (b : UInt8) : ∀ c ∈ pctByte b, isSafeOut c = true := by
+  intro c hc
+  simp only [pctByte, List.mem_cons, List.not_mem_nil, or_false] at hc
+  have h1 : b.toNat / 16 < 16 := by have := b.toNat_lt; omega
+  have h2 : b.toNat % 16 < 16 := by omega
+  rcases hc with h | h | h
+  · subst h; decide
+  · subst h; have := hexDigit_safe ⟨_, h1⟩; simp [isSafeOut, this]
+  · subst h; have := hexDigit_safe ⟨_, h2⟩; simp [isSafeOut, this]
+
+/-- **Values are URL-encoded**: the encoded text only contains unreserved characters, `/`, `%XX`
+escapes and `+` … -/
+theorem encode_output_safe (s : List Char) : ∀ c ∈ encode s, isSafeOut c = true := by
+  intro c hc
+  simp only [encode, List.mem_flatMap] at hc
+  obtain ⟨a, _, hca⟩ := hc
+  unfold encodeChar at hca
+  split at hca
+  · rename_i h
+    simp only [List.mem_singleton] at hca
+    subst hca
+    simp only [Bool.or_eq_true, decide_eq_true_eq] at h
+    rcases h with h | h
+    · simp [isSafeOut, h]
+    · simp [isSafeOut, h]
+  · split at hca
+    · simp only [List.mem_singleton] at hca; subst hca; decide
+    · simp only [List.mem_flatMap] at hca
+      obtain ⟨b, _, hb⟩ := hca
+      exact pctByte_safe b c hb
+
+/-- … in particular never the pair separators `=` and `&`, so the header splits uniquely into pairs. -/
+theorem encode_no_separators (s : List Char) : '=' ∉ encode s ∧ '&' ∉ encode s := by
+  constructor <;> intro h <;> have := encode_output_safe s _ h <;> revert this <;> decide
+
+/-! ## Non-vacuity: the hypotheses are met by non-trivial inputs; the model computes -/
+
+private def tt : ClassTables := ⟨[], [], []⟩
+
+/-- `projects/*/{table_location=instances/*}/tables/*` (routing.proto) is in the grammar -/
+example : (⟨[.lit "projects".toList, .star], "table_location".toList, [.lit "instances".toList, .star],
+    [.lit "tables".toList, .star]⟩ : Template).wf = true := by decide
+
+/-- `{routing_id=projects/*}/**` is in the grammar and captures `projects/p1` -/
+example : Model.Routing.capture tt ⟨[], "routing_id".toList, [.lit "projects".toList, .star], [.dstar]⟩
+    "projects/p1/x/y".toList = some "projects/p1".toList := by decide
+
+/-- `/v1/{name=shelves/*}/books/{book.id}:read` is a well-formed path with two variables -/
+example : WFPath [.lit "/v1/".toList, .var "name".toList (some "shelves/*".toList), .lit "/books/".toList,
+    .var "book.id".toList none, .lit ":read".toList] := by
+  simp [WFPath]
+
+/-- last one wins, on routing.proto's example: two parameters share the key `routing_id`; the
+    later one (`app_profile_id`) overrides the earlier (`table_name`) when both match -/
+example :
+    resolveExplicit tt
+      [⟨"table_name".toList, some ⟨[], "routing_id".toList, [.lit "projects".toList, .star], [.dstar]⟩⟩,
+       ⟨"app_profile_id".toList, some ⟨[], "routing_id".toList, [.dstar], []⟩⟩]
+      (fun f => if f = "table_name".toList then "projects/p/instances/i".toList
+                else if f = "app_profile_id".toList then "prof".toList else [])
+    = [("routing_id".toList, "prof".toList)] := by decide
+
+/-- … and the earlier one is sent when the later one's field is empty -/
+example :
+    resolveExplicit tt
+      [⟨"table_name".toList, some ⟨[], "routing_id".toList, [.lit "projects".toList, .star], [.dstar]⟩⟩,
+       ⟨"app_profile_id".toList, some ⟨[], "routing_id".toList, [.dstar], []⟩⟩]
+      (fun f => if f = "table_name".toList then "projects/p/instances/i".toList else [])
+    = [("routing_id".toList, "projects/p".toList)] := by decide
+
+example : encodePairs [("k".toList, "a b/c&d".toList)] = "k=a+b/c%26d".toList := by decide
+
+/-! ## What the hypotheses exclude, and where the real code violates the statement
+(each input is replayed on the real code by the C06 check: corpus / excluded points) -/
+
+/-- a top-level reserved word is read from the suffixed attribute … -/
+theorem implicit_reserved_top_level :
+    disambiguated "class".toList = "class_".toList ∧ attrPathValid (disambiguated "class".toList) = true := by
+  decide
+
+/-- … and suffixing never produces another reserved word. -/
+theorem suffixed_not_reserved :
+    ∀ w ∈ Pinned.reservedNames, Pinned.reservedNames.contains (w ++ "_") = false := by decide
+
+/-- **DEFECT (DESIGN §9-F1)**: a dotted path variable with a keyword segment, `{book.class=…}`.
+`FieldHeader.disambiguated` looks up the whole dotted string, finds it is not reserved, and the
+emitted tuple entry is `("book.class", request.book.class)`: not a Python expression, so neither
+`client.py` nor `async_client.py` can be imported and no call carries the header. -/
+theorem implicit_attr_counterexample :
+    disambiguated "book.class".toList = "book.class".toList ∧
+    attrPathValid (disambiguated "book.class".toList) = false := by decide
+
+/-- **DEFECT**: explicit routing copies the field path into `request.<field>` without any
+disambiguation: a routing parameter on a field named by a keyword (`from`) emits `request.from`. -/
+theorem explicit_field_keyword_counterexample : attrPathValid "from".toList = false := by decide
+
+/-- outside the quantifier (hypothesis of `capture_eq_scan`): a value containing a newline is not
+matched by `.*`; the template language would accept it. -/
+theorem newline_counterexample :
+    Model.Routing.capture tt ⟨[], "k".toList, [.dstar], []⟩ "a\nb".toList = none ∧
+    scanCapture ⟨[], "k".toList, [.dstar], []⟩ "a\nb".toList = some "a\nb".toList := by decide
+
+/-- outside the grammar (`Template.wf`): with `**` before the last segment the regex backtracks
+(`{k=a/**}/b` on `a/x/b` captures `a/x`), which the one-pass scanner does not follow. -/
+theorem dstar_not_last_counterexample :
+    (⟨[], "k".toList, [.lit "a".toList, .dstar], [.lit "b".toList]⟩ : Template).wf = false ∧
+    Model.Routing.capture tt ⟨[], "k".toList, [.lit "a".toList, .dstar], [.lit "b".toList]⟩ "a/x/b".toList
+      = some "a/x".toList ∧
+    scanCapture ⟨[], "k".toList, [.lit "a".toList, .dstar], [.lit "b".toList]⟩ "a/x/b".toList = none := by decide
+
+/-- two named segments: the code raises `ValueError` at generation time (model: `manyNamed`). -/
+theorem many_named_rejected :
+    ofSegs [.named "a".toList [.star], .tok (.lit "x".toList), .named "b".toList [.star]] = .error (.manyNamed 2) := by
+  rfl
 
 end GapicModel.Props.C06
